@@ -75,8 +75,17 @@ func quietTail(t *rapid.T, w *chainsim.World, m *chainsim.Monitor, adv *chainsim
 	// everybody; a node that is far behind needs one block to notice and one sync to catch up)
 	budget := time.Duration(4*len(w.Vals)+4) * w.BlockTime
 	tipsBefore := tipsSummary(w)
+	forgedBefore := s.Stats["forged"]
 	s.Run(s.Now()+budget, 600000, nil)
 	m.Raise()
+	if s.Stats["forged"] == forgedBefore {
+		// Nobody generated a block in the quiet phase, so nobody was offered anything: the clause under test (a node
+		// offered a better chain ends on it) has no instance. This happens when every validator's chain was cut back
+		// below blocks it had generated itself (a block sync that removed them on a lying peer's word and then failed,
+		// or was killed): the generators then rightly refuse to sign those heights a second time - see DESIGN 10.5.
+		simkit.Probe("c19_tail_no_block_generated_no_verdict")
+		return
+	}
 	var ref *chainsim.Node
 	minH := ^uint32(0)
 	maxH := uint32(0)
